@@ -144,7 +144,7 @@ def gen_join_all() -> str:
     return ModuleTranslator(REPO, join_all_spec()).run("Gen.JoinAll")
 
 
-WORKER_OPAQUE_STR = {"traceback.format_exc": Opaque("format_exc", returns="str")}
+WORKER_STR_EXPR = {"traceback.format_exc()": ('"<str>"', "str")}  # reads the current exception, no effect on the model
 
 
 def thread_worker_spec() -> ModuleSpec:
@@ -155,8 +155,8 @@ def thread_worker_spec() -> ModuleSpec:
         opaque={
             "command.execute": Opaque("execute", may_raise="executeRaises"),
             "cfw_register.set_error": Opaque("set_error"),
-            **WORKER_OPAQUE_STR,
         },
+        expr_map=dict(WORKER_STR_EXPR),
         attr_assign_events={"command.step_is_done": "step_is_done"},
     )
 
@@ -171,10 +171,9 @@ def sync_execute_spec() -> ModuleSpec:
             "self.prepare_tfs_and_joinstep": Opaque("prepare_tfs_and_joinstep", returns="obj", may_raise="prepareFromRaises"),
             "step.execute": Opaque("execute", may_raise="executeRaises"),
             "self.cfw_register.set_error": Opaque("set_error"),
-            **WORKER_OPAQUE_STR,
         },
         attr_assign_events={"step.step_is_done": "step_is_done"},
-        expr_map={"ParallelizationMode.SYNC": ("()", "obj"), "self.cfw_register": ("()", "obj"), "self.cfw_collection[cfw_uuid]": ("()", "obj")},
+        expr_map={**WORKER_STR_EXPR, "ParallelizationMode.SYNC": ("()", "obj"), "self.cfw_register": ("()", "obj"), "self.cfw_collection[cfw_uuid]": ("()", "obj")},
         ignore_calls=["logging.error"],
     )
 
